@@ -3,14 +3,16 @@ as_raw_sourcemap in u22) and the reader's contract (decode_regular_post, proved 
 from .u22_encode import encode_preamble
 
 NAME = 'u24_roundtrip'
-PROPS = ['C01', 'C03', 'C07']
+PROPS = ['C01', 'C03', 'C07', 'C14']
 MUTANTS = []
 
 
 def build(u):
     u.use_overlay('u24_roundtrip.ctr')
     encode_preamble(u, iters=False)
+    from .common import emit_struct
+    emit_struct(u, 'src/types.rs', 'Token', keep_derive=True)
     for pr in ['shim_str_bytes.rs', 'shim_string_bytes.rs', 'shim_ascii.rs', 'shim_split.rs', 'shim_option_or.rs', 'derive_eq_rawtoken.rs']:
         u.prelude(pr)
-    for sp in ['mappings.rs', 'mappings_dec.rs', 'mappings_inverse.rs', 'rmi_inverse.rs', 'rmi_roundtrip.rs', 'decode_regular.rs', 'doc_roundtrip.rs']:
+    for sp in ['mappings.rs', 'mappings_dec.rs', 'mappings_inverse.rs', 'rmi_inverse.rs', 'rmi_roundtrip.rs', 'decode_regular.rs', 'hermes.rs', 'hermes_decode.rs', 'hermes_wrap.rs', 'doc_roundtrip.rs']:
         u.spec(sp)
